@@ -520,7 +520,8 @@ def check_token(case, ctx):
             if known and not pinned:
                 ctx.exclude(f"string matching the compiler's bind-template regex on a positional paramstyle (known finding {known})")
                 v = neutralise(v0, trig)
-            if flavor == "mssql" and percent == "nodouble" and isinstance(v, str) and re.search(r"%\([^)]+\)[sd]", v):
+            if flavor == "mssql" and percent == "nodouble" and isinstance(v, str) and (re.search(r"%\([^)]+\)[sd]", v) or (pos in ("in", "tuple_in", "tin") and "%(" in v)):
+                # (in a multi-value position the driver's %(name)s scan can also match across two renderings of the value)
                 # pymssql substitutes %(name)s inside literals and offers no escape: driver limitation, out of scope
                 v = v.replace("%(", "%{")
             if pos == "offset" and flavor == "sqlite" and mode == "lb" and not pinned:
